@@ -481,7 +481,9 @@ impl SubRule {
         while index < max {
             #[cfg(feature = "verif")] crate::verif::tick(111);
             *state_index = back_state;
+            let opt_start = *pos;
             if self.match_opt_states(opt_states, word, pos, forwards)? {
+                let opt_end = *pos;
                 let mut m = true;
                 while *state_index < states.len() {
                     #[cfg(feature = "verif")] crate::verif::tick(112);
@@ -494,6 +496,8 @@ impl SubRule {
                 if m {
                     return Ok(true)
                 } else {
+                    // an optional that matched without consuming anything (e.g. `($,0)`) can never make progress
+                    if opt_end == opt_start { return Ok(false) }
                     index += 1;
                     *self.alphas.borrow_mut() = back_alphas.clone();
                     *self.variables.borrow_mut() = back_varlbs.clone();
